@@ -10,6 +10,7 @@ import (
 	"strings"
 
 	"github.com/tobgu/qframe"
+	"github.com/tobgu/qframe/config/groupby"
 
 	"verif/harness/core"
 	"verif/harness/model"
@@ -577,7 +578,7 @@ func twin(o model.Frame, mut string) (qframe.QFrame, bool) {
 // c09InitModel is the model form of the C01 initial frame (declared enum values adopted).
 func c09InitModel(init int) model.Frame {
 	o := model.Observe(newHistEnv().initial(init))
-	o.AdoptMeta(model.Frame{Cols: []model.Col{{Name: "e", Kind: model.Enum, EnumVals: []string{"hi", "lo", "mid"}}}})
+	o.AdoptMeta(model.Frame{Cols: []model.Col{{Name: "e", Kind: model.Enum, EnumVals: c01EnumVals}}})
 	return o
 }
 
@@ -644,23 +645,179 @@ func runObsCase(c obsCase) *core.Failure {
 	return checkObservers(a)
 }
 
-// checkCongruence: the frame and its New-rebuilt twin give Equal results under operation op.
+// congExtra: operations applied in the congruence check in addition to the C01 alphabet. They
+// concentrate on the enum column, whose stored representation (codes into a value table) can
+// drift away from the observed strings, and on grouping/aggregation (a Grouper is not a frame, so
+// the one-step operations of the alphabet never reach Aggregate).
+type congExtraOp struct {
+	name      string
+	unordered bool // row order of the result is unspecified
+	needsDecl bool // depends on the declared enum order: skipped when the twin's enum is derived
+	run       func(q qframe.QFrame) []qframe.QFrame
+}
+
+func congExtras() []congExtraOp {
+	byE := func(q qframe.QFrame, cmp string, inverse bool) []qframe.QFrame {
+		// one filter per distinct observed value of e (a value that does not occur is an error or not
+		// depending on whether the enum is strict, which no observer shows: not used)
+		var out []qframe.QFrame
+		if !q.Contains("e") {
+			return nil
+		}
+		seen := map[string]bool{}
+		var vals []string
+		if v, err := q.EnumView("e"); err == nil {
+			for i := 0; i < v.Len(); i++ {
+				if p := v.ItemAt(i); p != nil && !seen[*p] {
+					seen[*p] = true
+					vals = append(vals, *p)
+				}
+			}
+		} else if v, err := q.StringView("e"); err == nil {
+			for i := 0; i < v.Len(); i++ {
+				if p := v.ItemAt(i); p != nil && !seen[*p] {
+					seen[*p] = true
+					vals = append(vals, *p)
+				}
+			}
+		}
+		for _, val := range vals {
+			out = append(out, q.Filter(qframe.Filter{Column: "e", Comparator: cmp, Arg: val, Inverse: inverse}))
+		}
+		return out
+	}
+	one := func(f func(q qframe.QFrame) qframe.QFrame) func(q qframe.QFrame) []qframe.QFrame {
+		return func(q qframe.QFrame) []qframe.QFrame { return []qframe.QFrame{f(q)} }
+	}
+	return []congExtraOp{
+		{name: "Filter(e = v) for every observed v", run: func(q qframe.QFrame) []qframe.QFrame { return byE(q, "=", false) }},
+		{name: "Filter(e != v) for every observed v", run: func(q qframe.QFrame) []qframe.QFrame { return byE(q, "!=", false) }},
+		{name: "Filter(e like v) for every observed v", run: func(q qframe.QFrame) []qframe.QFrame { return byE(q, "like", false) }},
+		{name: "Filter(e < v) for every observed v", needsDecl: true, run: func(q qframe.QFrame) []qframe.QFrame { return byE(q, "<", false) }},
+		{name: "Filter(e in all observed)", run: one(func(q qframe.QFrame) qframe.QFrame {
+			if !q.Contains("e") {
+				return q
+			}
+			var vals []string
+			if v, err := q.EnumView("e"); err == nil {
+				for i := 0; i < v.Len(); i++ {
+					if p := v.ItemAt(i); p != nil {
+						vals = append(vals, *p)
+					}
+				}
+			}
+			return q.Filter(qframe.Filter{Column: "e", Comparator: "in", Arg: vals})
+		})},
+		{name: "Distinct(e) projected on e", unordered: true, run: one(func(q qframe.QFrame) qframe.QFrame {
+			return q.Distinct(groupby.Columns("e")).Select("e")
+		})},
+		{name: "Distinct(e, null) projected on e", unordered: true, run: one(func(q qframe.QFrame) qframe.QFrame {
+			return q.Distinct(groupby.Columns("e"), groupby.Null(true)).Select("e")
+		})},
+		{name: "Distinct(s,e) projected on s,e", unordered: true, run: one(func(q qframe.QFrame) qframe.QFrame {
+			return q.Distinct(groupby.Columns("s", "e"), groupby.Null(true)).Select("s", "e")
+		})},
+		{name: "GroupBy(e).Aggregate(sum i, count k)", unordered: true, run: one(func(q qframe.QFrame) qframe.QFrame {
+			return q.GroupBy(groupby.Columns("e")).Aggregate(qframe.Aggregation{Fn: "sum", Column: "i"}, qframe.Aggregation{Fn: "count", Column: "k", As: "n"})
+		})},
+		{name: "GroupBy(e,null).Aggregate(sum i)", unordered: true, run: one(func(q qframe.QFrame) qframe.QFrame {
+			return q.GroupBy(groupby.Columns("e"), groupby.Null(true)).Aggregate(qframe.Aggregation{Fn: "sum", Column: "i"})
+		})},
+		{name: "GroupBy(k,e).Aggregate(count i)", unordered: true, run: one(func(q qframe.QFrame) qframe.QFrame {
+			return q.GroupBy(groupby.Columns("k", "e"), groupby.Null(true)).Aggregate(qframe.Aggregation{Fn: "count", Column: "i"})
+		})},
+		{name: "GroupBy(s).Aggregate(sum i)", unordered: true, run: one(func(q qframe.QFrame) qframe.QFrame {
+			return q.GroupBy(groupby.Columns("s"), groupby.Null(true)).Aggregate(qframe.Aggregation{Fn: "sum", Column: "i"})
+		})},
+		{name: "GroupBy(f,null).Aggregate(count i)", unordered: true, run: one(func(q qframe.QFrame) qframe.QFrame {
+			return q.GroupBy(groupby.Columns("f"), groupby.Null(true)).Aggregate(qframe.Aggregation{Fn: "count", Column: "i"})
+		})},
+		{name: "Apply(ToUpper e->e).Distinct(e) projected on e", unordered: true, run: one(func(q qframe.QFrame) qframe.QFrame {
+			return q.Apply(qframe.Instruction{Fn: "ToUpper", DstCol: "e", SrcCol1: "e"}).Distinct(groupby.Columns("e")).Select("e")
+		})},
+		{name: "Eval(e2 = upper(e)) then Filter(e2 = v) for every v", run: func(q qframe.QFrame) []qframe.QFrame {
+			u := q.Apply(qframe.Instruction{Fn: "ToUpper", DstCol: "e", SrcCol1: "e"})
+			return byE(u, "=", false)
+		}},
+	}
+}
+
+// totalSort sorts by all columns (to compare results whose row order is unspecified).
+func totalSort(q qframe.QFrame) qframe.QFrame {
+	var ord []qframe.Order
+	for _, n := range q.ColumnNames() {
+		ord = append(ord, qframe.Order{Column: n})
+	}
+	if len(ord) == 0 {
+		return q
+	}
+	return q.Sort(ord...)
+}
+
+// checkCongruence: the frame and its New-rebuilt twin give Equal results under operation op
+// (an index into the C01 alphabet, or beyond it into congExtras).
 func checkCongruence(a qframe.QFrame, opIdx int) *core.Failure {
 	oa := model.Observe(a)
 	if oa.Err {
 		return nil
 	}
-	// keep declared enum values where the twin can know them
-	oa.AdoptMeta(model.Frame{Cols: []model.Col{{Name: "e", Kind: model.Enum, EnumVals: []string{"hi", "lo", "mid"}}}})
-	t := model.Build(oa)
+	// keep declared enum values where the twin can know them; a column whose cells no longer fit the
+	// declaration (e.g. after ToUpper) is rebuilt as an enum derived from the data
+	withDecl := oa.Clone()
+	withDecl.AdoptMeta(model.Frame{Cols: []model.Col{{Name: "e", Kind: model.Enum, EnumVals: c01EnumVals}}})
+	t := model.Build(withDecl)
+	derivedTwin := false
 	if t.Err != nil {
-		return nil // e.g. a derived enum column no longer matching the declaration; not a twin
+		t = model.Build(oa)
+		derivedTwin = true
+		if t.Err != nil {
+			return nil
+		}
+	} else {
+		oa = withDecl
 	}
 	if eq, why := a.Equals(t); !eq {
 		return core.Failf("frame rebuilt with New from the observed values is not Equal: %s\n frame: %s", why, oa)
 	}
 	ops := c01Ops()
+	if opIdx >= len(ops) {
+		ex := congExtras()[opIdx-len(ops)]
+		if ex.needsDecl && derivedTwin {
+			return nil
+		}
+		r1, r2 := ex.run(a), ex.run(t)
+		if len(r1) != len(r2) {
+			return core.Failf("%s produced %d results on the frame and %d on its twin\n frame: %s", ex.name, len(r1), len(r2), oa)
+		}
+		for i := range r1 {
+			x, y := r1[i], r2[i]
+			if (x.Err != nil) != (y.Err != nil) {
+				return core.Failf("%s (result %d): Err differs between frame (%v) and twin (%v)\n frame: %s", ex.name, i, x.Err, y.Err, oa)
+			}
+			if x.Err != nil {
+				continue
+			}
+			if ex.unordered {
+				x, y = totalSort(x), totalSort(y)
+				if derivedTwin && x.Contains("e") {
+					// the two enum types order their values differently: compare as sets of rows
+					ox, oy := model.Observe(x), model.Observe(y)
+					if d := diffRowSets(ox, oy); d != "" {
+						return core.Failf("%s (result %d): results on the frame and on its Equal twin differ as sets of rows: %s\n frame:  %s\n result: %s\n twin's: %s", ex.name, i, d, oa, ox, oy)
+					}
+					continue
+				}
+			}
+			if eq, why := x.Equals(y); !eq {
+				return core.Failf("%s (result %d): results on the frame and on its Equal twin are not Equal (%s)\n frame:  %s\n result: %s\n twin's: %s", ex.name, i, why, oa, model.Observe(x), model.Observe(y))
+			}
+		}
+		return nil
+	}
 	op := ops[opIdx]
+	if derivedTwin && strings.HasPrefix(op.name, "Sort(e") {
+		return nil // the derived twin orders its enum values differently
+	}
 	e1, e2 := newHistEnv(), newHistEnv()
 	m1, m2 := newFrameMember(a, "f"), newFrameMember(t, "twin")
 	r1 := op.apply(e1, []*member{m1}, m1)
@@ -697,22 +854,57 @@ func checkCongruence(a qframe.QFrame, opIdx int) *core.Failure {
 			}
 			continue
 		}
-		if strings.HasPrefix(op.name, "Distinct") || strings.HasPrefix(op.name, "Aggregate") {
-			// row order is (partly) unspecified: normalise by a total sort on all columns
-			var ord []qframe.Order
-			for _, n := range x.ColumnNames() {
-				ord = append(ord, qframe.Order{Column: n})
+		if strings.HasPrefix(op.name, "Distinct") {
+			// which representative is kept is unspecified, the set of keys is not: compare the key columns
+			if op.name == "Distinct(k)" {
+				x, y = x.Select("k"), y.Select("k")
 			}
-			if strings.HasPrefix(op.name, "Distinct") {
-				continue // which representative is kept is unspecified
+			ox, oy := model.Observe(totalSort(x)), model.Observe(totalSort(y))
+			if d := diffRowSets(ox, oy); d != "" {
+				return core.Failf("%s: key sets on the frame and on its Equal twin differ: %s\n frame:  %s\n result: %s\n twin's: %s", op.name, d, oa, ox, oy)
 			}
-			x, y = x.Sort(ord...), y.Sort(ord...)
+			continue
+		}
+		if strings.HasPrefix(op.name, "Aggregate") {
+			x, y = totalSort(x), totalSort(y)
 		}
 		if eq, why := x.Equals(y); !eq {
 			return core.Failf("%s: results on the frame and on its Equal twin are not Equal (%s)\n frame:  %s\n result: %s\n twin's: %s", op.name, why, oa, model.Observe(x), model.Observe(y))
 		}
 	}
 	return nil
+}
+
+// diffRowSets compares two observed frames as multisets of rows.
+func diffRowSets(a, b model.Frame) string {
+	if a.Err || b.Err {
+		if a.Err != b.Err {
+			return "one of them is an error"
+		}
+		return ""
+	}
+	if a.N != b.N {
+		return fmt.Sprintf("%d rows vs %d rows", a.N, b.N)
+	}
+	rows := func(f model.Frame) []string {
+		out := make([]string, f.N)
+		for r := 0; r < f.N; r++ {
+			var sb strings.Builder
+			for _, c := range f.Cols {
+				sb.WriteString(c.Name + "=" + model.CellString(c.Kind, c.Cells[r]) + ";")
+			}
+			out[r] = sb.String()
+		}
+		sort.Strings(out)
+		return out
+	}
+	ra, rb := rows(a), rows(b)
+	for i := range ra {
+		if ra[i] != rb[i] {
+			return fmt.Sprintf("row %q vs %q", ra[i], rb[i])
+		}
+	}
+	return ""
 }
 
 func c09Run(ctx *core.Ctx) {
@@ -768,6 +960,12 @@ func c09Run(ctx *core.Ctx) {
 					oi := oi
 					ctx.Exec(cc, func() *core.Failure { return checkCongruence(qf, oi) })
 					ctx.Outcome("congruence")
+				}
+				for xi := range congExtras() {
+					oi := len(ops) + xi
+					cc := obsCase{Init: init, Path: ff.path, Which: c.Which, Cong: true, CongOp: oi}
+					ctx.Exec(cc, func() *core.Failure { return checkCongruence(qf, oi) })
+					ctx.Outcome("congruence-extra")
 				}
 			}
 		}
